@@ -310,20 +310,20 @@ OPS = {"op_offline": "control_switch_offline", "op_local": "control_switch_onlin
 
 
 def ref_step(state, sub, action):
-    """E30 control table for one request: (state, sub) -> (state, sub, answer); answer = ack code or operator 'ok'/'refused'."""
+    """E30 control table for one request: (state, sub) -> (state, sub, answer, [CEID reported]); answer = ack code or operator 'ok'/'refused'."""
     online = state.startswith("ONLINE")
     if action == "s1f15":
-        return ("HOST_OFFLINE" if online else state), sub, 0
+        return (("HOST_OFFLINE", sub, 0, [CE_OFFLINE]) if online else (state, sub, 0, []))
     if action == "s1f17":
         if state == "HOST_OFFLINE":
-            return "ONLINE_" + sub, sub, 0
-        return state, sub, (2 if online else 1)
+            return "ONLINE_" + sub, sub, 0, [CE_LOCAL if sub == "LOCAL" else CE_REMOTE]
+        return state, sub, (2 if online else 1), []
     if action == "op_offline":
-        return ("EQUIPMENT_OFFLINE", sub, "ok") if online else (state, sub, "refused")
+        return ("EQUIPMENT_OFFLINE", sub, "ok", [CE_OFFLINE]) if online else (state, sub, "refused", [])
     if action == "op_local":
-        return ("ONLINE_LOCAL", "LOCAL", "ok") if state == "ONLINE_REMOTE" else (state, sub, "refused")
+        return ("ONLINE_LOCAL", "LOCAL", "ok", [CE_LOCAL]) if state == "ONLINE_REMOTE" else (state, sub, "refused", [])
     if action == "op_remote":
-        return ("ONLINE_REMOTE", "REMOTE", "ok") if state == "ONLINE_LOCAL" else (state, sub, "refused")
+        return ("ONLINE_REMOTE", "REMOTE", "ok", [CE_REMOTE]) if state == "ONLINE_LOCAL" else (state, sub, "refused", [])
     raise ValueError(action)
 
 
@@ -341,6 +341,17 @@ def run_conc(devs, budgets, initial="ONLINE", sub="REMOTE", host="s1f15", op="op
             box["harness"] = f"could not establish communication: {ep.comm()}"
             return
         box["start"] = h.control_state.current.name
+        # control-state collection events linked and enabled (report 1 = SVID 1002)
+        body33 = e5.enc(("L", [u(1), ("L", [("L", [u(1), ("L", [u(1002)])])])]))
+        body35 = e5.enc(("L", [u(2), ("L", [("L", [u(ce), ("L", [u(1)])]) for ce in (CE_OFFLINE, CE_LOCAL, CE_REMOTE)])]))
+        body37 = e5.enc(("L", [("BOOLEAN", [True]), ("L", [])]))
+        for f, body in ((33, body33), (35, body35), (37, body37)):
+            sb = ep.send_primary(2, f, True, body)
+            s.settle()
+            rep = [x for x in ep.pump() if x["system"] == sb and x["stype"] == 0]
+            if len(rep) != 1 or rep[0]["body"] != e5.enc(("B", b"\x00")):
+                box["harness"] = f"set-up S2F{f} not acknowledged"
+                return
         res = {}
 
         def operator():
@@ -356,10 +367,23 @@ def run_conc(devs, budgets, initial="ONLINE", sub="REMOTE", host="s1f15", op="op
         t = vrt.Thread(target=operator, name="operator")
         t.start()
         t.join(60.0)
-        s.settle()
+        frames = []
+        for _ in range(6):
+            s.settle()
+            new = ep.pump()
+            frames += new
+            if not ep.auto_reply([f for f in new if f["system"] != sysb]):
+                break
         s.line_points = False
         s.frozen = True
-        frames = ep.pump()
+        ces = []
+        for f in frames:
+            if f["stype"] == 0 and (f["stream"], f["function"]) == (6, 11):
+                try:
+                    ces.append(gh.decode_body(f["body"])[1][1][1][0])
+                except Exception:  # noqa: BLE001
+                    ces.append("undecodable")
+        box["ces"] = sorted(ces, key=str)
         mine = [f for f in frames if f["stype"] == 0 and f["system"] == sysb]
         box["ack"] = [(f["function"], f["body"].hex()) for f in mine]
         box["op"] = res.get("op", "did-not-return")
@@ -385,19 +409,23 @@ def run_conc(devs, budgets, initial="ONLINE", sub="REMOTE", host="s1f15", op="op
     start = box["start"]
     allowed = []
     for first, second in ((host, op), (op, host)):
-        st, sb, a1 = ref_step(start, sub, first)
-        st, sb, a2 = ref_step(st, sb, second)
+        st, sb, a1, c1 = ref_step(start, sub, first)
+        st, sb, a2, c2 = ref_step(st, sb, second)
         ack, opres = (a1, a2) if first == host else (a2, a1)
-        allowed.append((st, ack, opres))
+        allowed.append((st, ack, opres, sorted(c1 + c2)))
     fn = 16 if host == "s1f15" else 18
     got_ack = None
     if len(box["ack"]) == 1 and box["ack"][0][0] == fn and len(box["ack"][0][1]) == 6:
         got_ack = int(box["ack"][0][1][4:6], 16)
-    got = (box["state"], got_ack, box["op"])
+    got = (box["state"], got_ack, box["op"], box["ces"])
     res["obs"] = {"got": got}
-    if got not in allowed:
+    if got[:3] not in [a[:3] for a in allowed]:
         res["v"].append((f"C11|concurrent|not-a-serial-outcome|{host}+{op}|from={start}|got={got[0]}/{got[1]}/{got[2]}",
                          {"case": case, "allowed": allowed, "got": got, "acks": box["ack"]}))
+    elif got not in allowed:
+        # (the reports are sent by their own threads: compared as a multiset)
+        res["v"].append((f"C11|concurrent|collection-events-of-no-serial-order|{host}+{op}|from={start}|got={got[3]}",
+                         {"case": case, "allowed": allowed, "got": got}))
     want_sv = e5.enc(("L", [("B", bytes([CODE.get(box["state"], 0)]))])).hex()
     if box["sv"] != want_sv:
         res["v"].append((f"C11|concurrent|svid-1002-differs-from-state|{host}+{op}", {"case": case, "sv": box["sv"], "state": box["state"]}))
